@@ -19,21 +19,6 @@ GENERATED = os.path.join(os.path.dirname(os.path.dirname(os.path.abspath(__file_
 STREAMS = ("compose", "ambient", "inbound")
 
 
-LOCAL_KNOWN = os.path.join(os.path.dirname(os.path.dirname(os.path.abspath(__file__))), "harness", "corpus", "C10", "known.local.json")
-
-
-def merge_local_known(ctx):
-    """known-findings.json is the coordinator's file; until an entry handed over in notes/C10.md is listed there the
-    check uses the committed local copy (never written at run time; an entry already listed in the shared file wins)."""
-    import json
-    if not os.path.exists(LOCAL_KNOWN):
-        return
-    have = {k.get("fingerprint") for k in ctx.known}
-    for k in json.load(open(LOCAL_KNOWN)).get("findings", []):
-        if k.get("property_id") == ctx.pid and k.get("fingerprint") not in have:
-            ctx.known.append(k)
-
-
 def fingerprint(stream, clause, klass):
     # the composed-client finding is keyed by its cause, whichever stream exhibits it
     if clause == "client-composed":
@@ -123,7 +108,6 @@ def _locked(fn):
 
 @_locked
 def run(ctx):
-    merge_local_known(ctx)
     ctx.rule = ("cases = 0-6 PeerAuthentication policies (mesh / namespace / workload-selector / port-level; modes UNSET, "
                 "DISABLE, PERMISSIVE, STRICT and nil; creation times from a 3-value pool, one case in four with a single "
                 "time; names chosen so that the name tie-break differs from input order; root namespace sometimes a "
@@ -201,7 +185,6 @@ def run(ctx):
 @_locked
 def replay(ctx, path):
     import json
-    merge_local_known(ctx)
     obj = json.load(open(path))
     rep = obj.get("replay", {})
     ops = rep.get("ops") or (rep.get("extra") or {}).get("ops")
